@@ -115,3 +115,31 @@ Example unguarded_report_loop_no_termination :
     (blank_of_report_loop false (fun _ _ => true) (fun _ => (false, false))) (fun _ => false)
     2000 (initial_page_maker nat BAny true) 0 0 0 [] = OutOfFuel.
 Proof. vm_compute. reflexivity. Qed.
+
+(* LATER ROUNDS.  Second round of a document of two pages: page 1 is up to date,
+   page 2 (ContentChanged: a page-based counter) is made again and now reports a
+   footnote with nothing left to resume (in the first round page 1 had reported it
+   to page 2; the re-used page 1 reports nothing, pages.go "reportedFootnotes = nil").
+   The loop must go on with a third page, which the previous round does not have. *)
+Definition second_round_pm : list (item nat) :=
+  [mk_item None BAny true false false; mk_item (Some 1) BAny false true false;
+   mk_item None BAny true false false].
+Definition page2_reports_footnote (r : option nat) (fn : nat) : (option nat * brk * nat) * (bool * bool) :=
+  ((None, BAny, 1), (false, false)).
+
+(* unchanged tree: page 3 is taken for up to date (its item was created with
+   ContentChanged = false because resumeAt was nil) and the re-use branch indexes
+   pageMaker[3] of 3 items: index out of range (witness corpus/C01/055) *)
+Example later_round_orig_panics :
+  make_all_pages_orig nat Nat.eqb page2_reports_footnote
+    (blank_of_report_loop true (fun _ _ => false) (fun _ => (false, false))) (fun _ => false)
+    50 second_round_pm 2 0 0 [] = Panic 1019.
+Proof. vm_compute. reflexivity. Qed.
+
+(* repaired: a page that did not exist in the previous round is made *)
+Example later_round_fixed_returns :
+  fmap_pages (make_all_pages nat Nat.eqb page2_reports_footnote
+    (blank_of_report_loop true (fun _ _ => false) (fun _ => (false, false))) (fun _ => false)
+    50 second_round_pm 2 0 0 [])
+  = Some [PContent; PContent; PBlank].
+Proof. vm_compute. reflexivity. Qed.
